@@ -1,5 +1,5 @@
 (* C20 - text and encoding helpers. Statements only. *)
-From Plush Require Import model.Bytes model.Text proofs.TextProofs.
+From Plush Require Import model.Bytes model.Text proofs.TextProofs proofs.EscapeProofs.
 
 (* truncate returns s unchanged (byte-identical, any bytes) when it has at
    most size characters *)
@@ -25,6 +25,26 @@ Theorem C20_html_escape_id : forall s,
   html_escape s = s.
 Proof. exact html_escape_id. Qed.
 
+(* jsEscape, for every byte string and whatever unicode.IsPrint answers: the
+   output contains no raw < > & = and no raw line break, and a quote only
+   directly after the backslash of an escape (escapes: backslash + backslash,
+   quote, or u and hex digits) *)
+Theorem C20_js_escape_ok : forall is_print s, js_ok (js_escape is_print s) = true.
+Proof. exact js_escape_ok. Qed.
+
+(* toJSON, for every JSON value: no raw < > & anywhere in the output (strings,
+   object keys, numbers, punctuation) *)
+Theorem C20_to_json_clean : forall v, json_clean (to_json v) = true.
+Proof. exact to_json_clean. Qed.
+
+(* bytes of the input are copied to the output of jsEscape / toJSON only as
+   part of a multi-byte rune that the UTF-8 decoder accepted *)
+Theorem C20_copied_bytes_are_continuations : forall c r rn size,
+  decode1 c r = (rn, size) -> Forall high (firstn (size - 1) r).
+Proof. exact decode1_tail_high. Qed.
+
+Print Assumptions C20_js_escape_ok.
+Print Assumptions C20_to_json_clean.
 Print Assumptions C20_truncate_short.
 Print Assumptions C20_truncate_shape.
 Print Assumptions C20_html_escape_clean.
